@@ -1,6 +1,7 @@
 //! ge-dst — deterministic simulation with fault injection for glass-easel.
 //! See /verif/DESIGN.md. Exit codes: 0 held, 1 violation, 2 harness error.
 
+mod c14;
 mod c20;
 mod common;
 mod compile;
@@ -81,6 +82,17 @@ fn main() {
         "C06" => rt::check(&args, gen::Prop::C06),
         "C07" => rt::check(&args, gen::Prop::C07),
         "C11" => rt::check(&args, gen::Prop::C11),
+        "C14" => c14::check(&args),
+        "diag" => {
+            // print the diagnostics of a source given on stdin (debugging aid)
+            let mut inp = String::new();
+            std::io::Read::read_to_string(&mut std::io::stdin(), &mut inp).unwrap();
+            let (_t, mut st) = glass_easel_template_compiler::parse::parse("index", &inp);
+            for w in st.take_warnings() {
+                println!("{:?} level>=Warn:{} {}", w.kind, w.level() >= glass_easel_template_compiler::parse::ParseErrorLevel::Warn, w);
+            }
+            0
+        }
         "jobs" => {
             // dump executor jobs as NDJSON (benchmarking / debugging aid)
             let n: u64 = args.runs.unwrap_or(100);
@@ -112,6 +124,7 @@ fn main() {
             match v["engine"].as_str().unwrap_or("") {
                 "group" => c20::replay(&v, p, args.quiet),
                 "runtime" => rt::replay(&v, p, args.quiet),
+                "lockstep" => c14::replay(&v, p, args.quiet),
                 x => harness_error(&format!("unknown engine in replay file: {}", x)),
             }
         }
